@@ -251,17 +251,37 @@ def r16_4(ctx):
             if p.outcome != "return":
                 continue
             ev = p.events
-            vis = [k for k, b in enumerate(p.blocks) if any(b == h for h, body in lockloops)]
-            if not vis:
-                continue
+            lk = [i for i, e in enumerate(ev) if e.kind == "call" and e.q and re.search(r"::lock$", e.q) and not (e.obj is not None and sv_field_path(e.obj)[-1:] == ["m_access"])]
+            if lk:
+                after_idx = lk[-1]
+            else:
+                vis = [k for k, b in enumerate(p.blocks) if any(b == h for h, body in lockloops)]
+                if not vis:
+                    continue
+                after = set(p.blocks[vis[-1] + 1:])
+                firsts = [i for i, e in enumerate(ev) if e.site is not None and e.site[0] in after]
+                if not firsts:
+                    continue
+                after_idx = firsts[0] - 1
             n += 1
             withlock += 1
-            after = set(p.blocks[vis[-1] + 1:])
-            reval = [e for e in ev if e.kind == "call" and atomic_op(e) == "load" and sv_field_path(e.obj)[-1:] == ["m_Owner"] and e.site is not None and e.site[0] in after]
+            tail = ev[after_idx + 1:]
+            reval = [e for e in tail if e.kind == "call" and atomic_op(e) == "load" and sv_field_path(e.obj)[-1:] == ["m_Owner"]]
             ctx.check(bool(reval), "R16.4", F, "refinable::acquire re-reads the resize owner after taking the cell locks, before it returns", None,
                       detail="a resize that started between the first owner check and the lock acquisition would otherwise run concurrently with the operation. " + R,
                       sig="acquire-revalidates")
-            un = [e for e in ev if e.kind == "call" and e.q and re.search(r"::unlock$", e.q) and e.site is not None and e.site[0] in after]
+            # ... and the lock array / capacity it locked in is still the current one
+            same = False
+            loadobj = {e.val: repr(e.obj) for e in ev if e.kind == "call" and e.obj is not None}
+            for atom, tv, bev in cond_atoms(p):
+                if ev.index(bev) > after_idx and tv and isinstance(atom, tuple) and atom[:2] == ("op", "=="):
+                    txt = repr(atom) + " ".join(loadobj.get(x, "") for x in atom[2:4])
+                    if re.search(r"m_arrLocks|m_nCapacity", txt):
+                        same = True
+            ctx.check(same, "R16.4", F, "refinable::acquire returns only if the lock array (capacity) it took its lock from is still the current one", None,
+                      detail="a resize completed between the snapshot of the lock array and the lock acquisition leaves the caller with a lock of the retired "
+                      "array, which excludes nobody (the owner mark is clear again). " + R, sig="acquire-same-array")
+            un = [e for e in tail if e.kind == "call" and e.q and re.search(r"::unlock$", e.q)]
             ctx.check(not un, "R16.4", F, "refinable::acquire returns with the cell locks held", None, detail=R, sig="acquire-holds")
     if n < 6 or withlock < 1:
         ctx.broken("lock policy sites not found (%d, %d acquire paths with a lock)" % (n, withlock))
